@@ -74,7 +74,8 @@ Lemma get_delivery_foot c d r e :
   /\ (forall ref, (forall rf ss, dget (sm_seq (e_msg e)) (c_seg c) = Some (rf, ss) -> rf <> ref) -> dget ref (c_stat c') = dget ref (c_stat c))
   /\ snd (fst (get_delivery c d r)) = ddel (rc_id r) d /\ snd (get_delivery c d r) = Some (e_msg e).
 Proof.
-  intros Hd. unfold get_delivery. rewrite Hd.
+  intros Hd. unfold get_delivery. rewrite Hd. cbv zeta.
+  destruct (is_segment (e_msg e)); [|cbn [fst snd]; auto 6].
   destruct (dget (sm_seq (e_msg e)) (c_seg c)) as [[ref sseq]|] eqn:Eg; [|cbn [fst snd]; auto 6].
   destruct (dget ref (c_stat c)) as [ss|]; [|cbn [fst snd]; auto 6].
   cbn [fst snd with_stat c_store c_seg c_stat]. split; [reflexivity|]. split; [reflexivity|]. split; [|split; reflexivity].
@@ -89,8 +90,12 @@ Proof.
   intros Hd. unfold handle_receipt. cbn [negb].
   pose proof (get_delivery_foot (h_corr s) (h_deliv s) rc e Hd) as G. cbv zeta in G.
   destruct (get_delivery (h_corr s) (h_deliv s) rc) as [[c1 d1] om]. cbn [fst snd] in G. destruct G as (G1 & G2 & G3 & -> & ->).
-  pose proof (get_segmented_rm_foot c1 (sm_seq (e_msg e))) as S. cbv zeta in S.
-  destruct (get_segmented c1 (sm_seq (e_msg e)) true) as [[c2 oss] code]. cbn [fst] in S. destruct S as (S1 & S2 & S3).
+  assert (let c2 := fst (fst (if is_segment (e_msg e) then get_segmented c1 (sm_seq (e_msg e)) true else (c1, None, 0))) in
+          c_store c2 = c_store c1 /\ (forall k', k' <> sm_seq (e_msg e) -> dget k' (c_seg c2) = dget k' (c_seg c1))
+          /\ (forall ref, (forall rf ss, dget (sm_seq (e_msg e)) (c_seg c1) = Some (rf, ss) -> rf <> ref) -> dget ref (c_stat c2) = dget ref (c_stat c1))) as S
+    by (destruct (is_segment (e_msg e)); [apply get_segmented_rm_foot|cbn [fst]; auto]).
+  cbv zeta in S.
+  destruct (if is_segment (e_msg e) then get_segmented c1 (sm_seq (e_msg e)) true else (c1, None, 0)) as [[c2 oss] code]. cbn [fst] in S. destruct S as (S1 & S2 & S3).
   assert (forall s3 : hstate, h_corr s3 = c2 -> h_deliv s3 = ddel (rc_id rc) (h_deliv s) ->
           fp2 (sm_seq (e_msg e)) (rc_id rc) (fun ref => forall rf ss, dget (sm_seq (e_msg e)) (c_seg (h_corr s)) = Some (rf, ss) -> rf <> ref) s s3) as Hs3.
   { intros s3 Hc Hdl. unfold fp2. rewrite Hc, Hdl, S1, G1.
